@@ -96,19 +96,26 @@ LeafOn(op, f, v) ==
       [] op = "is"         -> f.b = v.b
       [] op = "exists"     -> TRUE
 
-LeafStrict(c, r) == /\ Has(r, c.key)
-                    /\ (FieldKind(c.op) \in {"any", Get(r, c.key).t})
-                    /\ LeafOn(c.op, Get(r, c.key), c.val)
+\* index of the field `key` in r, 0 if there is none
+Idx(r, key) == IF \E j \in 1..Len(r) : r[j].key = key THEN CHOOSE j \in 1..Len(r) : r[j].key = key ELSE 0
 
-\* the leaves on which StructAccessor and JSONAccessor disagree (numeric operator, other numeric kind)
-LeafOpen(c, r) == /\ Has(r, c.key)
-                  /\ \/ c.op \in IntOps /\ Get(r, c.key).t = "float"
-                     \/ c.op \in FloatOps /\ Get(r, c.key).t = "int"
+\* "T" / "F": the leaf is true / false on r; "O": open, the leaves on which StructAccessor and
+\* JSONAccessor disagree (numeric operator on a field of the other numeric kind)
+LeafVal(c, r) ==
+    LET j == Idx(r, c.key) IN
+    IF j = 0 THEN "F"
+    ELSE LET f == r[j].val
+             kind == FieldKind(c.op)
+         IN IF (kind = "int" /\ f.t = "float") \/ (kind = "float" /\ f.t = "int") THEN "O"
+            ELSE IF kind \in {"any", f.t} /\ LeafOn(c.op, f, c.val) THEN "T" ELSE "F"
+
+LeafStrict(c, r) == LeafVal(c, r) = "T"
+LeafOpen(c, r) == LeafVal(c, r) = "O"
 
 \* ---- conditions ----
 RECURSIVE Matches(_, _)
 Matches(c, r) ==
-    CASE c.k = "leaf" -> LeafStrict(c, r)
+    CASE c.k = "leaf" -> LeafVal(c, r) = "T"
       [] c.k = "and"  -> \A j \in 1..Len(c.sub) : Matches(c.sub[j], r)
       [] c.k = "or"   -> \E j \in 1..Len(c.sub) : Matches(c.sub[j], r)
       [] c.k = "not"  -> ~Matches(c.sub[1], r)
@@ -117,18 +124,19 @@ Matches(c, r) ==
 \* (leaves are resolved independently: a sound over-approximation of the set of outcomes)
 RECURSIVE MayMatch(_, _), MustMatch(_, _)
 MayMatch(c, r) ==
-    CASE c.k = "leaf" -> LeafOpen(c, r) \/ LeafStrict(c, r)
+    CASE c.k = "leaf" -> LeafVal(c, r) # "F"
       [] c.k = "and"  -> \A j \in 1..Len(c.sub) : MayMatch(c.sub[j], r)
       [] c.k = "or"   -> \E j \in 1..Len(c.sub) : MayMatch(c.sub[j], r)
       [] c.k = "not"  -> ~MustMatch(c.sub[1], r)
 MustMatch(c, r) ==
-    CASE c.k = "leaf" -> ~LeafOpen(c, r) /\ LeafStrict(c, r)
+    CASE c.k = "leaf" -> LeafVal(c, r) = "T"
       [] c.k = "and"  -> \A j \in 1..Len(c.sub) : MustMatch(c.sub[j], r)
       [] c.k = "or"   -> \E j \in 1..Len(c.sub) : MustMatch(c.sub[j], r)
       [] c.k = "not"  -> ~MayMatch(c.sub[1], r)
 
-\* the set of answers a conforming implementation may give
+\* the set of answers a conforming implementation may give, and the test whether b is one of them
 Allowed(c, r) == {b \in BOOLEAN : (b => MayMatch(c, r)) /\ (~b => ~MustMatch(c, r))}
+Conforms(b, c, r) == IF b THEN MayMatch(c, r) ELSE ~MustMatch(c, r)
 
 \* a query without a where clause matches every record: represent it as And(<<>>)
 NoCondition == And(<<>>)
